@@ -6,6 +6,7 @@
 import DateutilVerif.Ops.Base
 import DateutilVerif.Ops.CacheOps
 import DateutilVerif.Ops.Factory
+import DateutilVerif.Ops.GettzGen
 import DateutilVerif.Ops.ICal
 import DateutilVerif.Ops.IsoParser
 import DateutilVerif.Ops.NestedOps
@@ -26,10 +27,11 @@ import DateutilVerif.Ops.TzLoadGen
 import DateutilVerif.Ops.TzObjGen
 import DateutilVerif.Ops.TzStr
 import DateutilVerif.Ops.TzifGen
+import DateutilVerif.Ops.Weekday
 import DateutilVerif.Ops.Zones
 
 def handlers : List (String → List String → Option String) :=
-  [Ops.Base.handle, Ops.CacheOps.handle, Ops.Factory.handle, Ops.ICal.handle, Ops.IsoParser.handle, Ops.NestedOps.handle, Ops.Parser.handle, Ops.ParserGen.handle, Ops.QueryOps.handle, Ops.RRule.handle, Ops.RRuleStr.handle, Ops.RRuleStrGen.handle, Ops.RSetOps.handle, Ops.ReduceOps.handle, Ops.RelativeDelta.handle, Ops.ReplaceOps.handle, Ops.ScanOps.handle, Ops.TzGen.handle, Ops.TzHelpGen.handle, Ops.TzLoadGen.handle, Ops.TzObjGen.handle, Ops.TzStr.handle, Ops.TzifGen.handle, Ops.Zones.handle]
+  [Ops.Base.handle, Ops.CacheOps.handle, Ops.Factory.handle, Ops.GettzGen.handle, Ops.ICal.handle, Ops.IsoParser.handle, Ops.NestedOps.handle, Ops.Parser.handle, Ops.ParserGen.handle, Ops.QueryOps.handle, Ops.RRule.handle, Ops.RRuleStr.handle, Ops.RRuleStrGen.handle, Ops.RSetOps.handle, Ops.ReduceOps.handle, Ops.RelativeDelta.handle, Ops.ReplaceOps.handle, Ops.ScanOps.handle, Ops.TzGen.handle, Ops.TzHelpGen.handle, Ops.TzLoadGen.handle, Ops.TzObjGen.handle, Ops.TzStr.handle, Ops.TzifGen.handle, Ops.Weekday.handle, Ops.Zones.handle]
 
 def dispatch (line : String) : String :=
   match (line.trimAscii.toString.splitOn " ").filter (· ≠ "") with
